@@ -20,7 +20,7 @@ class StarArgs(Sh):
 def seq_elts(I, v, node=None):
     if isinstance(v, (ListLit, TupS, SetS)):
         return list(v.elts)
-    return I.iterate(v, node)
+    return list(I.iterate(v, node))
 
 
 def type_name(v):
@@ -802,6 +802,19 @@ def builtin(I, name, a, kwargs, node, _no_override=False):
         if all(isinstance(x, Const) for x in a):
             return ListLit([Const(i) for i in range(*[x.v for x in a])])
         return Top("range")
+    if name == "iter" and len(a) == 1 and not kwargs:
+        if isinstance(a[0], Obj) and a[0].cls == "iterator":
+            return a[0]
+        if isinstance(a[0], (ListOf, Top, Leaf, Choice)):
+            raise ShapeError(f"iter() of {a[0]!r:.60}")
+        # the elements as they are now (a container changed while one of its iterators is alive is not modelled)
+        return Obj("iterator", OrderedDict(items=ListLit(list(I.iterate(a[0], node))), pos=Const(0)))
+    if name == "next" and a and isinstance(a[0], Obj) and a[0].cls == "iterator":
+        for x in I.iterate(a[0], node):
+            return x
+        if len(a) > 1:
+            return a[1]
+        raise _Raise("StopIteration", ["StopIteration", "Exception", "BaseException", "object"])
     if name == "reversed":
         return ListLit(list(reversed(seq_elts(I, a[0], node))))
     if name == "print":
